@@ -4,7 +4,10 @@
 package main
 
 import (
+	"bufio"
+	"crypto/tls"
 	"fmt"
+	"io"
 	"math/rand"
 	"net/http"
 	"strings"
@@ -42,7 +45,12 @@ func main() {
 	be := rig.NewBackend(nil)
 	defer be.Close()
 	be.PlanFor = func(r *http.Request, tag string) *rig.Plan {
-		return &rig.Plan{Status: 299, Header: map[string][]string{"X-From-Backend": {tag}}, Chunks: [][]byte{[]byte("BACKEND-BODY:" + tag)}}
+		pl := &rig.Plan{Status: 299, Header: map[string][]string{"X-From-Backend": {tag}}, Chunks: [][]byte{[]byte("BACKEND-BODY:" + tag)}}
+		if strings.HasPrefix(r.URL.Path, "/slow") {
+			pl.Gate = make(chan struct{})
+			go func(g chan struct{}) { time.Sleep(300 * time.Millisecond); close(g) }(pl.Gate)
+		}
+		return pl
 	}
 	on, err := rig.StartProxy(be.URL, rig.ProxyOpts{Args: []string{"-enable-kubernetes-probe=true"}})
 	if err != nil {
@@ -83,6 +91,11 @@ func main() {
 		{{"User-Agent", "kube-prob/1"}},
 		{{"User-Agent", "kube-probe/\t"}},
 		{{"User-Agent", "Mozilla/5.0 (compatible; kube-probe/1.0)"}},
+		// another field name repeated around the User-Agent line (legal; an HTTP/2 encoder may emit that order)
+		{{"X-Note", "first"}, {"User-Agent", "Mozilla/5.0"}, {"X-Note", "kube-probe/1.30"}},
+		{{"Accept", "text/html"}, {"User-Agent", "kube-probe/1.30"}, {"Accept", "*/*"}},
+		{{"X-A", "1"}, {"X-B", "2"}, {"X-A", "kube-probe/1"}, {"User-Agent", "curl/8"}, {"X-B", "kube-probe/2"}, {"X-A", "3"}},
+		{{"Cookie", "a=kube-probe/1"}, {"User-Agent", "kube-probe/1.31"}, {"Cookie", "b=2"}, {"X-Z", "z"}, {"Cookie", "c=3"}},
 	}
 	var cases []tcase
 	for _, flag := range []string{"on", "off", "default"} {
@@ -239,6 +252,57 @@ func main() {
 				}
 			}()
 		}
+	}
+	wg.Wait()
+	// clients that stop sending (half-close) or reset the stream while the backend has not answered yet:
+	// whatever the client is told, a success the backend never produced is an answer made up locally
+	for i := 0; i < run.Pick(24, 200); i++ {
+		wg.Add(1)
+		sem <- struct{}{}
+		go func(i int) {
+			defer wg.Done()
+			defer func() { <-sem }()
+			flag := []string{"on", "off", "default"}[i%3]
+			ua := []string{"curl/8", "x kube-probe/1", "", "Mozilla/5.0"}[(i/3)%4]
+			tag := fmt.Sprintf("C15-%d-halfclose-%d", run.Seed, i)
+			c := tcase{Flag: flag != "off", Proto: "http/1.1", Method: []string{"GET", "POST"}[i%2], Path: "/slow/" + fmt.Sprint(i), Headers: [][2]string{{"User-Agent", ua}}, Family: "half-close:" + flag}
+			tc, _, err := rig.StdDial(proxies[flag].Addr, &tls.Config{InsecureSkipVerify: true, NextProtos: []string{"http/1.1"}}, nil, nil)
+			if err != nil {
+				return
+			}
+			defer tc.Close()
+			tc.SetDeadline(time.Now().Add(20 * time.Second))
+			body := ""
+			if c.Method == "POST" {
+				body = "Content-Length: 4\r\n\r\nbody"
+			} else {
+				body = "\r\n"
+			}
+			fmt.Fprintf(tc, "%s %s HTTP/1.1\r\nHost: front.example\r\nUser-Agent: %s\r\n%s: %s\r\n%s", c.Method, c.Path, ua, rig.TagHeader, tag, body)
+			be.Wait(tag, 5*time.Second) // the request is at the backend, which has not answered yet
+			tc.CloseWrite()                // close_notify + FIN: the client has nothing more to say but keeps reading
+			resp, rerr := http.ReadResponse(bufio.NewReader(tc), &http.Request{Method: c.Method})
+			var rb []byte
+			if rerr == nil {
+				rb, _ = io.ReadAll(resp.Body)
+			}
+			run.Eval(1)
+			run.Add("half_close_requests", 1)
+			run.Distinct(fmt.Sprintf("halfclose|%s|%s|%s", flag, c.Method, ua))
+			if rerr != nil {
+				run.Add("half_close_no_response", 1)
+				return
+			}
+			fromBackend := resp.StatusCode == 299 && resp.Header.Get("X-From-Backend") == tag
+			switch {
+			case fromBackend:
+				run.Add("half_close_backend_response_delivered", 1)
+			case resp.StatusCode >= 500:
+				run.Add("half_close_gateway_error", 1)
+			default:
+				run.Violation("made-up-answer-for-forwarded-request", c, "the client half-closed after sending a non-probe request that reached the backend %d time(s); it was answered with status %d body %q, which the backend never produced", len(be.Records(tag)), resp.StatusCode, trunc(rb))
+			}
+		}(i)
 	}
 	wg.Wait()
 	// late sweep: a locally answered request must not show up at the backend later either
